@@ -90,6 +90,10 @@ def FieldU64_ConditionalAssign : Spec where
   congr := none
 
 
+/-! ## internal/field, amd64 assembly (field_u64_amd64.s, translated by asm2ir) — the same contracts as the generic code -/
+def FieldAsm_feMul : Spec := FieldU64_feMulGeneric
+def FieldAsm_fePow2k1 : Spec := FieldU64_fePow2kGeneric1
+
 /-! ## internal/field, 32-bit backend (10 limbs of 26/25 bits) -/
 def evenB : Nat := 226050910   -- ⌊(2^32-1)/19⌋ : 19·x fits a uint32
 def oddB : Nat := 113025455    -- half of it
